@@ -146,18 +146,36 @@ fn replay(stage: &str, args: &[String], plain: bool) {
     let (btx, brx) = std::sync::mpsc::sync_channel::<Vec<String>>(nworkers * 2);
     let brx = std::sync::Arc::new(std::sync::Mutex::new(brx));
     let (rtx, rrx) = std::sync::mpsc::channel::<(Vec<String>, Vec<Value>)>();
+    // circuit breaker: a change that makes the code hang costs one watchdog period per case; once enough
+    // fatal outcomes (hang / abort) have been seen the remaining cases are skipped - the violations are
+    // established, running into thousands of timeouts would only make the check useless
+    let fatals = std::sync::Arc::new(std::sync::atomic::AtomicU64::new(0));
+    let fatal_limit: u64 = std::env::var("VERIF_FATAL_LIMIT").ok().and_then(|s| s.parse().ok()).unwrap_or(12);
     let mut sups = vec![];
     for _ in 0..nworkers {
         let brx = brx.clone();
         let rtx = rtx.clone();
         let stage = stage.to_string();
+        let fatals = fatals.clone();
         sups.push(std::thread::spawn(move || {
             let mut worker = None;
             loop {
                 let batch = { let g = brx.lock().unwrap(); g.recv() };
                 match batch {
                     Ok(b) => {
-                        let res = iso::run_batch(&stage, seed, &b, &mut worker);
+                        if fatals.load(std::sync::atomic::Ordering::Relaxed) >= fatal_limit { continue; }
+                        // small slices so that the breaker is consulted often
+                        let mut res = Vec::with_capacity(b.len());
+                        let mut done = 0usize;
+                        for chunk in b.chunks(50) {
+                            if fatals.load(std::sync::atomic::Ordering::Relaxed) >= fatal_limit { break; }
+                            let r = iso::run_batch(&stage, seed, chunk, &mut worker);
+                            let nf = r.iter().filter(|v| matches!(v.get("fatal").and_then(|f| f.as_str()), Some("hang") | Some("abort"))).count() as u64;
+                            if nf > 0 { fatals.fetch_add(nf, std::sync::atomic::Ordering::Relaxed); }
+                            done += chunk.len();
+                            res.extend(r);
+                        }
+                        let b: Vec<String> = b.into_iter().take(done).collect();
                         if rtx.send((b, res)).is_err() { break; }
                     }
                     Err(_) => break,
